@@ -81,8 +81,23 @@ def run(ctx):
         jobs.append((exe, [], "host-k%dd%dm%d" % tr))
         ctx.configs.append(lib["desc"])
     common.parallel(lambda j: common.run_harness(ctx, j[0], j[1], label=j[2]), jobs)
-    import emu
-    emu.run_all(ctx)
+    # (d) text-level emulation of the other ISAs (numpy; runs under the tooling interpreter python3-vt)
+    isas = ["riscv32i", "riscv32e", "riscv64i", "armv8a64", "armv7m", "armv6", "armv6m", "i386", "m68k", "xtensa", "avr5", "avr5_x2", "avr5_x3"]
+    ctx.not_emulated = []
+    py = shutil.which("python3-vt")
+    if not py:
+        ctx.not_emulated = isas
+        ctx.cap("python3-vt (numpy) not available: no ISA emulated")
+    else:
+        runpy = os.path.join(common.VERIF, "emu", "run.py")
+
+        def emu_one(isa):
+            rc, out, err = common.run_harness(ctx, py, [runpy, isa, 1 if t else 0], label="", timeout=max(60, ctx.remaining()))
+            if rc == 0:
+                ctx.stat("emulated_isas")
+            else:
+                ctx.not_emulated.append(isa)
+        common.parallel(emu_one, isas, jobs=13)
     ctx.assumptions += [
         "generator check: the generators are built and run from a scratch copy of tools/ and their output compared byte for byte with the 18 checked-in files",
         "host ABI: System V x86-64 callee-saved set {rbx, rbp, r12-r15}, rsp, direction flag, no write above the return address; objects flush against PROT_NONE pages",
